@@ -22,7 +22,7 @@ class TRel:
     pass
 
 
-def build(cfg, N, mir_path=None):
+def build(cfg, N, mir_path=None, line=None):
     t0 = time.time()
     if mir_path is None:
         mir_path, _ = dump_mir(REPO, cfg, scratch())
@@ -30,7 +30,7 @@ def build(cfg, N, mir_path=None):
     enums, structs = P.scan_source_types(os.path.join(REPO, "src"))
     enums[T.NOM_ERR] = ["Incomplete", "Error", "Failure"]
     enums["Err"] = enums[T.NOM_ERR]
-    line = T.Line(N)
+    line = line or T.Line(N)
 
     def s_message_type(ex, st, callee, args, argv, f):
         v = ex.deref_val(st, argv[0])
@@ -584,3 +584,46 @@ def q_message_type(cx, known):
     res.violations.append({"what": rec["what"] + (" (and not the recorded known behaviour first_byte>>2)" if known else ""), "replay": path})
     print("VIOLATION property=%s replay=%s" % (res.prop, path), flush=True)
     return False
+
+
+def q_cfg_miter(res, ra, rb):
+    """C18, text layer: the sentence parser of two build configurations on the same symbolic line: same category, same fields"""
+    assert ra.line is rb.line
+    def accept_fields(rel):
+        ps = [p for p in rel.paths if p["cat"] == A_ACCEPT]
+        if len(ps) != 1:
+            raise Unsupported("expected one merged accept path, got %d" % len(ps))
+        f = ps[0]["sent"].fields
+        idv, chv, d = f[4], f[5], f[6]
+        return [disc64(f[0]), disc64(f[1]), f[2], f[3], disc64(idv), idv.payloads.get(1, [z3.BitVecVal(0, 8)])[0], disc64(chv),
+                chv.payloads.get(1, [z3.BitVecVal(0, 32)])[0], d.s, d.e, f[7], f[8], ps[0]["raw"].s, ps[0]["raw"].e]
+    diffs = [cat_is(ra, c) != cat_is(rb, c) for c in (A_ACCEPT, A_CHECKSUM, A_REJECT, A_PANIC)]
+    fa, fb = accept_fields(ra), accept_fields(rb)
+    idok = [z3.BoolVal(True)] * len(fa)
+    fd = []
+    for i, (x, y) in enumerate(zip(fa, fb)):
+        if i == 5:      # id value only matters when present
+            fd.append(z3.And(fa[4] == 1, x != y))
+        elif i == 7:
+            fd.append(z3.And(fa[6] == 1, x != y))
+        else:
+            fd.append(x != y)
+    bad = z3.Or(z3.Or(*diffs), z3.And(cat_is(ra, A_ACCEPT), z3.Or(*fd)))
+    s, r, dt = solve([ra.line.wf, bad], timeout_s=600, sat_backend=True)
+    it = _record(res, "text-layer-miter[%s vs %s,N=%d]" % (ra.cfg, rb.cfg, ra.N), r, dt,
+                 "the sentence parsers of the two configurations agree on accept / checksum error / reject and on every sentence field for every line (payloads beyond 384 bytes are outside N)")
+    if r == "sat":
+        line = model_line(s.model(), ra)
+        oa, ob = real_outcome(ra.cfg, line)[1], real_outcome(rb.cfg, line)[1]
+        res.replayed += 2
+        if oa.split()[:8] != ob.split()[:8]:
+            rec = {"property": res.prop, "engine": "M", "query": it["query"], "line": line.decode("latin1"), "line_hex": line.hex(), ra.cfg: oa, rb.cfg: ob,
+                   "what": "configurations disagree on a line", "script": ["N", "L 0 " + line.hex()], "cfg": rb.cfg}
+            path = kflow.write_replay(res.prop, rec)
+            res.violations.append({"what": "%s: %r -> %s: %s / %s: %s" % (it["query"], line, ra.cfg, oa, rb.cfg, ob), "replay": path})
+            print("VIOLATION property=%s replay=%s" % (res.prop, path), flush=True)
+        else:
+            res.norepro.append("%s: model line %r gives the same result in both real builds (%s)" % (it["query"], line, oa))
+    elif r != "unsat":
+        res.inconclusive.append(it["query"] + ": " + r)
+    return r == "unsat"
